@@ -154,4 +154,134 @@ example : (mkByteCfg false [[60,112,62]] none [60,112,62] [[60,112,62]] []).isSo
 example : splitInput { tokens := [[60,112,62]], offset := 256, padId := 256, prefixIds := [], suffixIds := [] }
     [97, 60, 112, 62, 60, 112] false = [.regular [97], .special 0 [60,112,62], .regular [60,112]] := by decide
 
+/-! ### independence of the alternation order (the code iterates a `HashMap`) -/
+
+theorem isPrefixOf_total : ∀ (t u s : List Nat), t.isPrefixOf s = true → u.isPrefixOf s = true → t.length ≤ u.length →
+    t.isPrefixOf u = true := by
+  intro t
+  induction t with
+  | nil => intro u s _ _ _; simp
+  | cons a t ih =>
+    intro u s h1 h2 hl
+    cases u with
+    | nil => simp at hl
+    | cons b u =>
+      cases s with
+      | nil => simp at h1
+      | cons c s =>
+        simp only [List.isPrefixOf, Bool.and_eq_true, beq_iff_eq] at h1 h2 ⊢
+        obtain ⟨rfl, h1⟩ := h1
+        obtain ⟨rfl, h2⟩ := h2
+        exact ⟨rfl, ih u s h1 h2 (by simpa using hl)⟩
+
+theorem prefixFree_spec {toks : List (List Nat)} (hpf : prefixFree toks = true) :
+    (∀ a ∈ toks, ∀ b ∈ toks, a.isPrefixOf b = true → a = b) ∧ ∀ a ∈ toks, a ≠ [] := by
+  unfold prefixFree at hpf
+  simp only [Bool.and_eq_true, List.all_eq_true, Bool.or_eq_true, beq_iff_eq, Bool.not_eq_true',
+    List.isEmpty_eq_false_iff] at hpf
+  refine ⟨fun a ha b hb hab => ?_, hpf.2⟩
+  rcases hpf.1 a ha b hb with h | h
+  · exact h
+  · rw [h] at hab; cases hab
+
+theorem matchAt_unique (toks : List (List Nat)) (hpf : prefixFree toks = true) (s : List Nat) (i j : Nat) (t u : List Nat)
+    (ht : t ∈ toks) (hu : u ∈ toks) (h1 : t.isPrefixOf s = true) (h2 : u.isPrefixOf s = true) : t = u := by
+  have hsp := (prefixFree_spec hpf).1
+  rcases Nat.le_total t.length u.length with hl | hl
+  · exact hsp t ht u hu (isPrefixOf_total t u s h1 h2 hl)
+  · exact (hsp u hu t ht (isPrefixOf_total u t s h2 h1 hl)).symm
+
+theorem matchAt_none {toks : List (List Nat)} {i : Nat} {s : List Nat} (h : matchAt toks i s = none) :
+    ∀ t ∈ toks, t ≠ [] → t.isPrefixOf s = false := by
+  induction toks generalizing i with
+  | nil => intro t ht; simp at ht
+  | cons u us ih =>
+    unfold matchAt at h
+    split at h
+    · simp at h
+    · rename_i hc
+      intro t ht hne
+      rcases List.mem_cons.mp ht with rfl | ht
+      · simp only [Bool.and_eq_true, Bool.not_eq_true', List.isEmpty_eq_false_iff, not_and, Bool.not_eq_true] at hc
+        exact hc hne
+      · exact ih h t ht hne
+
+theorem matchAt_mem {toks : List (List Nat)} {i j : Nat} {s t : List Nat} (h : matchAt toks i s = some (j, t)) : t ∈ toks :=
+  List.mem_of_getElem? (matchAt_some h).2.2.2
+
+theorem prefixFree_perm {toks toks' : List (List Nat)} (hp : toks.Perm toks') (h : prefixFree toks = true) :
+    prefixFree toks' = true := by
+  unfold prefixFree at *
+  simp only [Bool.and_eq_true, List.all_eq_true] at h ⊢
+  exact ⟨fun a ha b hb => h.1 a (hp.mem_iff.mpr ha) b (hp.mem_iff.mpr hb), fun a ha => h.2 a (hp.mem_iff.mpr ha)⟩
+
+/-- the alternation step finds the same token for every order of the alternatives -/
+theorem matchAt_perm (toks toks' : List (List Nat)) (hp : toks.Perm toks') (hpf : prefixFree toks = true) (s : List Nat) :
+    (matchAt toks 0 s).map (·.2) = (matchAt toks' 0 s).map (·.2) := by
+  cases h1 : matchAt toks 0 s with
+  | none =>
+    cases h2 : matchAt toks' 0 s with
+    | none => rfl
+    | some r =>
+      obtain ⟨j, u⟩ := r
+      obtain ⟨hne, hpre, _, _⟩ := matchAt_some h2
+      have := matchAt_none h1 u (hp.mem_iff.mpr (matchAt_mem h2)) hne
+      rw [this] at hpre; cases hpre
+  | some r =>
+    obtain ⟨i, t⟩ := r
+    obtain ⟨hne, hpre, _, _⟩ := matchAt_some h1
+    cases h2 : matchAt toks' 0 s with
+    | none =>
+      have := matchAt_none h2 t (hp.mem_iff.mp (matchAt_mem h1)) hne
+      rw [this] at hpre; cases hpre
+    | some r =>
+      obtain ⟨j, u⟩ := r
+      obtain ⟨_, hpre2, _, _⟩ := matchAt_some h2
+      have := matchAt_unique toks hpf s 0 0 t u (matchAt_mem h1) (hp.mem_iff.mpr (matchAt_mem h2)) hpre hpre2
+      simp [this]
+
+theorem splitAux_perm (toks toks' : List (List Nat)) (hp : toks.Perm toks') (hpf : prefixFree toks = true) :
+    ∀ (fuel : Nat) (s cur : List Nat),
+      (splitAux toks fuel s cur).map (fun p => (match p with | .regular b => (false, b) | .special _ b => (true, b))) =
+      (splitAux toks' fuel s cur).map (fun p => (match p with | .regular b => (false, b) | .special _ b => (true, b))) := by
+  intro fuel
+  induction fuel with
+  | zero => intro s cur; simp [splitAux]
+  | succ fuel ih =>
+    intro s cur
+    cases s with
+    | nil => simp [splitAux]
+    | cons b rest =>
+      have hm := matchAt_perm toks toks' hp hpf (b :: rest)
+      simp only [splitAux]
+      cases h1 : matchAt toks 0 (b :: rest) with
+      | none =>
+        cases h2 : matchAt toks' 0 (b :: rest) with
+        | none => simp only []; exact ih _ _
+        | some r => rw [h1, h2] at hm; simp at hm
+      | some r =>
+        cases h2 : matchAt toks' 0 (b :: rest) with
+        | none => rw [h1, h2] at hm; simp at hm
+        | some r' =>
+          obtain ⟨i, t⟩ := r
+          obtain ⟨j, u⟩ := r'
+          rw [h1, h2] at hm
+          simp at hm; subst hm
+          simp only [List.map_append, List.map_cons]
+          rw [ih]
+
+/-- consequence for `split_input` -/
+theorem splitInput_perm (sp sp' : Special) (hp : sp.tokens.Perm sp'.tokens) (hpf : prefixFree sp.tokens = true)
+    (s : List Nat) (ign : Bool) :
+    (splitInput sp s ign).map (fun p => (match p with | .regular b => (false, b) | .special _ b => (true, b))) =
+    (splitInput sp' s ign).map (fun p => (match p with | .regular b => (false, b) | .special _ b => (true, b))) := by
+  unfold splitInput
+  have he : sp.tokens.isEmpty = sp'.tokens.isEmpty := by
+    cases h1 : sp.tokens <;> cases h2 : sp'.tokens <;> simp [h1, h2] at hp ⊢
+  rw [he]
+  split
+  · rfl
+  · exact splitAux_perm _ _ hp hpf _ _ _
+
+example : prefixFree [[60,112,62],[60,113,62]] = true := by decide
 end Tu.C01
